@@ -276,8 +276,14 @@ func finishVictim(c *vh.Case, victim *netx.Node, trace *workTrace, startWork *bi
 	if msg := victim.Audit(); msg != "" {
 		c.Oracle("best-chain-invalid", "%s", msg)
 	}
-	if msg := trace.decreasing(); msg != "" {
+	if msg := trace.Decreasing(); msg != "" {
 		c.Oracle("tip-work-decreased", "%s", msg)
+	}
+	if msg := trace.Stuck(); msg != "" {
+		c.Oracle("listener-called-with-lock-held", "%s", msg)
+	}
+	if msg := victim.Store.Stuck(); msg != "" {
+		c.Oracle("peer-store-called-with-lock-held", "%s", msg)
 	}
 	end := netx.WorkOf(victim.CM.TipState().TotalWork)
 	if end.Cmp(startWork) < 0 {
